@@ -16,7 +16,9 @@ EXPLANATION = (
     "sorted(instance); C16.2 the default container hash (ProxyValue.get_hash) must canonicalise nested unordered containers (recursion "
     "through the registry or a pickler with a set reducer) rather than pickle the container opaquely; C16.3 no hash()/id() value flows "
     "into a get_hash/_calc_hash of the Value hierarchy, raw pickle.dump(s) is reachable only through redun.utils.pickle_dump(s) with the "
-    "constant PICKLE_PROTOCOL."
+    "constant PICKLE_PROTOCOL; C16.4 for every Value class, the resolved get_hash either ignores its pre-serialised `data` argument or falls "
+    "back, when it is None, to exactly the expression its resolved serialize() returns, so the shortcut backends use (get_hash(data=serialize())) "
+    "cannot change the hash."
 )
 
 VALUE = "redun/value.py"
@@ -102,3 +104,46 @@ def run(ctx):
                 pk = kwarg(c, "protocol")
                 ok = mod.rel == UTILS and q in ("pickle_dump", "pickle_dumps") and pk is not None and src(pk) == "PICKLE_PROTOCOL"
                 r3.check(ok, f"{mod.rel}:{q}:raw-pickle", f"raw pickle call outside redun.utils.pickle_dump(s) or without protocol=PICKLE_PROTOCOL: {src(c)[:60]}", mod.rel, c.lineno)
+
+    # ---- C16.4 -----------------------------------------------------------
+    r4 = ctx.rule("C16.4", "get_hash(data=serialize()) is get_hash(): the pre-serialised shortcut is the identity for every Value class", floor=6)
+    seen = 0
+    for m, c in [(vm, vbase)] + list(repo.subclasses(vbase, strict=True)):
+        gres = repo.resolve_method(m, c, "get_hash")
+        sres = repo.resolve_method(m, c, "serialize")
+        if gres is None or sres is None:
+            continue
+        gm, gowner, gfn = gres
+        sm, sowner, sfn = sres
+        if len(gfn.args.args) < 2:
+            continue
+        dparam = gfn.args.args[1].arg
+        loads = [n for n in ast.walk(gfn) if isinstance(n, ast.Name) and n.id == dparam and isinstance(n.ctx, ast.Load)]
+        construct = f"{m.rel}:{c.name}.get_hash[{gowner.name}]<->serialize[{sowner.name}]"
+        seen += 1
+        if not loads:
+            r4.good(construct, "hash ignores the pre-serialised data")
+            continue
+        # fallback `if data is None: data = E`
+        fallback = None
+        for n in ast.walk(gfn):
+            if isinstance(n, ast.If) and src(n.test) in (f"{dparam} is None", f"not {dparam}"):
+                for st in n.body:
+                    if isinstance(st, ast.Assign) and src(st.targets[0]) == dparam:
+                        fallback = st.value
+        srets = [n.value for n in ast.walk(sfn) if isinstance(n, ast.Return) and n.value is not None]
+        if fallback is None:
+            r4.violation(construct, f"{gowner.name}.get_hash uses `{dparam}` without a `{dparam} is None` fallback: the hash is not a function of the value alone", gm.rel, gfn.lineno)
+            continue
+        same = len(srets) == 1 and ast.dump(srets[0]) == ast.dump(fallback)
+        r4.check(
+            same,
+            construct,
+            f"{gowner.name}.get_hash hashes the caller-supplied `{dparam}` (backends pass serialize()) but falls back to `{src(fallback)}`, while "
+            f"{c.name} serialises with {sowner.name}.serialize -> `{src(srets[0]) if len(srets) == 1 else '<several returns>'}`: the same value gets a different hash "
+            "depending on whether the backend or the type registry computed it (and, for unordered containers, on iteration order)",
+            gm.rel,
+            gfn.lineno,
+        )
+    if seen < 10:
+        raise AnalysisError(f"only {seen} Value classes with get_hash/serialize found", "Value")
